@@ -63,6 +63,14 @@ CHECKS = {
         note="Backend is a Python list of JSON strings with cut points (real read path, real apply_logs); file/redis specifics are covered by C07/C01.",
         design="3/C06",
     ),
+    "C08": dict(
+        engine="seqx",
+        category="model_checking",
+        technique="explicit-state search over multi-client operation histories on one database, oracle = raw storage at that moment, observed through a clone of the cached client so that observation does not perturb the cache",
+        text="Every history up to depth 3 (thorough 4) of operations by three clients on one SQLite database - A (the cached client under test: _CachedStorage(RDBStorage) or GrpcStorageProxy over a cached/in-memory server), B (second cached client), R (raw storage, third writer and oracle) - over 2 studies sharing the id space: create RUNNING/WAITING/finished trials, finish and write attributes out of creation order, claim, reads by A and B (they move watermarks), foreign delete+recreate. After every step a clone of A must answer get_all_trials (state filters), get_trial for every id, number lookup, study name and directions exactly like R, ordered by number. States de-duplicated on (database, A cache, B cache).",
+        note="SQLite stands for RDB; in-process gRPC stub; thread interleavings inside one cached client are explored by C03's cached / grpc(mem) configurations.",
+        design="3/C08",
+    ),
     "C11": dict(
         engine="seqx-lattice",
         category="exploration",
@@ -120,7 +128,7 @@ ENGINES = [
          kind_free_text="bounded-exhaustive enumeration of finite argument lattices with exact or reference oracles"),
     dict(name="thx", path="vf/thx.py", serves_properties=["C03", "C04"],
          kind_free_text="stateless exploration of thread interleavings of the real code under a controlled scheduler, preemption-bounded"),
-    dict(name="seqx", path="vf/c01.py", serves_properties=["C01", "C02", "C06", "C12", "C17", "C20"],
+    dict(name="seqx", path="vf/c01.py", serves_properties=["C01", "C02", "C06", "C08", "C12", "C17", "C20"],
          kind_free_text="bounded-exhaustive explicit-state search over operation sequences of the real code with reference-model / brute-force oracles"),
 ]
 
